@@ -215,3 +215,34 @@ def sabotage(trace, rng):
         return None
     e["b"]["since"] += 1
     return trace, k + 1, "since of B"
+
+
+# --------------------------------------------------------------------------- generic two-run comparison
+def two_runs(fam, pa, pb, items, s, rel, feed_a=None, feed_b=None, pre_a=None, pre_b=None, restrict=None, extra=None):
+    """run A (params pa) and B (params pb) over the same items under the same seed per step; record both projections"""
+    kind = families()[fam]["kind"]
+    a, b = make(fam, pa), make(fam, pb)
+    ev = []
+    fa = feed_a or (lambda d, x, t: feed(fam, d, x))
+    fb = feed_b or (lambda d, x, t: feed(fam, d, x))
+    t0 = 0
+    if kind == "batch":
+        seed(s, 0)
+        a.set_reference((pre_a or (lambda x, t: np.array(x, dtype=float)))(items[0], 0))
+        seed(s, 0)
+        b.set_reference((pre_b or (lambda x, t: np.array(x, dtype=float)))(items[0], 0))
+        t0 = 1
+    for t in range(t0, len(items)):
+        seed(s, t)
+        fa(a, items[t], t)
+        seed(s, t)
+        fb(b, items[t], t)
+        e = step_event(a, b)
+        if restrict:
+            e["a"]["nums"], e["b"]["nums"] = restrict(e["a"]["nums"]), restrict(e["b"]["nums"])
+        ev.append(e)
+    cfg = {"rel": rel, "fam": fam}
+    out = {"cfg": cfg, "ev": ev, "fam": fam, "pa": pa, "pb": pb, "items": items, "seed": s}
+    if extra:
+        out.update(extra)
+    return out
